@@ -696,6 +696,13 @@ func propC03(run *Run, n int) {
 			}
 			addC03Case(run, t, joinHunks(sub))
 		}
+		if r.Chance(1, 10) {
+			// a CONTEXT-ONLY hunk (nothing removed, nothing added: an assertion about two neighbours; only the exported
+			// DiffElement fields can build it): it applies exactly when both context lines hold
+			t, hw := contextOnlyHunk(r)
+			run.Count("hunk:context-only")
+			addC03Case(run, t, hw)
+		}
 		if r.Chance(1, 6) {
 			// a hand-edited diff of TWO hunks on the same array: first a list edit inside it, then a hunk that replaces
 			// the array as a whole value — declaring the array as it was BEFORE the first hunk (stale: must be
@@ -712,6 +719,45 @@ func propC03(run *Run, n int) {
 			addC03Case(run, t, hw)
 		}
 	}
+}
+
+func contextOnlyHunk(r *Rng) (*Val, string) {
+	n := 1 + r.Intn(4)
+	xs := []*Val{}
+	for j := 0; j < n; j++ {
+		xs = append(xs, VNum(float64(j+1)))
+	}
+	i := r.Intn(n + 1) // between xs[i-1] and xs[i]
+	before, after := VVoid(), VVoid()
+	if i > 0 {
+		before = xs[i-1].Clone()
+	}
+	if i < n {
+		after = xs[i].Clone()
+	}
+	switch r.Intn(5) {
+	case 0:
+		after = VStr("wrong")
+	case 1:
+		before = VStr("wrong")
+	case 2:
+		if i < n {
+			after = VVoid() // claims the end of the array where there is an element
+		} else {
+			after = VNum(7) // claims an element behind the end
+		}
+	}
+	arr := VArr(xs...)
+	var t *Val = arr
+	pre := ""
+	switch r.Intn(3) {
+	case 0:
+		t, pre = VObj("a", arr), "K\"61 "
+	case 1:
+		t, pre = VArr(VStr("h"), arr), "I1 "
+	}
+	h := fmt.Sprintf("( s %sI%d | %s | | | %s )", pre, i, before.Wire(), after.Wire())
+	return t, joinHunks([]string{strings.Join(strings.Fields(h), " ")})
 }
 
 func staleReplaceDiff(r *Rng) (*Val, string) {
